@@ -25,8 +25,8 @@ ASSUMPTIONS = [
 
 
 @st.composite
-def cases(draw, tier="quick", frictionless=False):
-    h = draw(B.histories(tier, max_ops=10))
+def cases(draw, tier="quick", frictionless=False, wide=False):
+    h = draw(B.histories(tier, max_ops=10, wide=wide))
     n = len(h["contracts"])
     if frictionless:
         h["fees"] = [0.0, 0.0]
@@ -202,5 +202,7 @@ def run_target(case):
 
 PARTS = [
     Part("target", strategy=lambda tier: cases(tier, frictionless=False), run=run_target, quick=4000, thorough=300000),
+    Part("wide", strategy=lambda tier: st.one_of(cases(tier, frictionless=False, wide=True), cases(tier, frictionless=True, wide=True)),
+         run=run_target, quick=800, thorough=60000),      # one rebalance over 5-12 contracts
     Part("frictionless", strategy=lambda tier: cases(tier, frictionless=True), run=run_target, quick=2000, thorough=150000),
 ]
